@@ -1,15 +1,15 @@
 use super::message::SoapMessage;
 use crate::{
     error::{WriterError, WriterResult},
-    model::{TryFromNode, field::resolve_type},
+    model::{TryFromNode, field::resolve_type, ordered_map::OrderedMap},
 };
-use std::{collections::HashMap, rc::Rc};
+use std::rc::Rc;
 
 type XmlName = String;
 
 pub struct SoapPort {
     pub xml_name: String,
-    pub operations: HashMap<XmlName, SoapOperation>,
+    pub operations: OrderedMap<XmlName, SoapOperation>,
 }
 
 pub struct SoapOperation {
@@ -41,7 +41,7 @@ impl<'n> TryFromNode<'n> for SoapPort {
                 let opp = SoapOperation::try_from_node(o, doc)?;
                 Ok((name, opp))
             })
-            .collect::<WriterResult<HashMap<XmlName, SoapOperation>>>()?;
+            .collect::<WriterResult<OrderedMap<XmlName, SoapOperation>>>()?;
 
         Ok(SoapPort { xml_name, operations })
     }
